@@ -183,12 +183,22 @@ func (f *File) Validate() []string {
 // Assemble builds a container from tables (spec-conforming, directory sorted
 // by tag, data in tag order, head.checkSumAdjustment patched if present).
 func Assemble(scaler uint32, tables map[string][]byte) []byte {
+	return AssembleOrdered(scaler, tables, nil)
+}
+
+// AssembleOrdered is Assemble with the table data laid out in the given
+// physical order (tags of order first, as listed, then the remaining tables
+// in tag order); the directory stays sorted by tag.
+func AssembleOrdered(scaler uint32, tables map[string][]byte, order []string) []byte {
 	tags := make([]string, 0, len(tables))
 	for t := range tables {
 		tags = append(tags, t)
 	}
 	sort.Strings(tags)
 	n := len(tags)
+	if len(order) > 0 {
+		return assembleOrdered(scaler, tables, tags, order)
+	}
 	out := make([]byte, 12+16*n)
 	binary.BigEndian.PutUint32(out, scaler)
 	binary.BigEndian.PutUint16(out[4:], uint16(n))
@@ -230,4 +240,53 @@ func (f *File) Tables() map[string][]byte {
 		}
 	}
 	return m
+}
+
+func assembleOrdered(scaler uint32, tables map[string][]byte, tags, order []string) []byte {
+	n := len(tags)
+	out := make([]byte, 12+16*n)
+	binary.BigEndian.PutUint32(out, scaler)
+	binary.BigEndian.PutUint16(out[4:], uint16(n))
+	es := bits.Len(uint(n)) - 1
+	binary.BigEndian.PutUint16(out[6:], uint16(16<<es))
+	binary.BigEndian.PutUint16(out[8:], uint16(es))
+	binary.BigEndian.PutUint16(out[10:], uint16(16*n-(16<<es)))
+	seen := map[string]bool{}
+	var phys []string
+	for _, t := range order {
+		if _, ok := tables[t]; ok && !seen[t] {
+			seen[t] = true
+			phys = append(phys, t)
+		}
+	}
+	for _, t := range tags {
+		if !seen[t] {
+			phys = append(phys, t)
+		}
+	}
+	idx := map[string]int{}
+	for i, t := range tags {
+		idx[t] = i
+	}
+	headPos := -1
+	for _, t := range phys {
+		d := append([]byte(nil), tables[t]...)
+		if t == "head" && len(d) >= 12 {
+			d[8], d[9], d[10], d[11] = 0, 0, 0, 0
+			headPos = len(out)
+		}
+		p := 12 + 16*idx[t]
+		copy(out[p:], t)
+		binary.BigEndian.PutUint32(out[p+4:], Checksum(d))
+		binary.BigEndian.PutUint32(out[p+8:], uint32(len(out)))
+		binary.BigEndian.PutUint32(out[p+12:], uint32(len(d)))
+		out = append(out, d...)
+		for len(out)%4 != 0 {
+			out = append(out, 0)
+		}
+	}
+	if headPos >= 0 {
+		binary.BigEndian.PutUint32(out[headPos+8:], 0xB1B0AFBA-Checksum(out))
+	}
+	return out
 }
